@@ -20,3 +20,24 @@ Proof.
   destruct (commit v) as [vc|]; cbn [is_none]; [|reflexivity].
   destruct (vc =? c); [reflexivity|]. destruct (ia c vc); reflexivity.
 Qed.
+
+(* cli/run.py validate_args: the model rejects exactly the flag combinations the TRANSLATED function
+   rejects, with the error class of the same name, in the same order of tests *)
+Definition flag_error_name (e : flag_error) : list N :=
+  match e with
+  | CannotSetBothCommitFlags => [67; 97; 110; 110; 111; 116; 83; 101; 116; 66; 111; 116; 104; 67; 111; 109; 109; 105; 116; 70; 108; 97; 103; 115]
+  | CannotSetAgainAndCommit => [67; 97; 110; 110; 111; 116; 83; 101; 116; 65; 103; 97; 105; 110; 65; 110; 100; 67; 111; 109; 109; 105; 116]
+  | CommitFlagUnsupported => [67; 111; 109; 109; 105; 116; 70; 108; 97; 103; 85; 110; 115; 117; 112; 112; 111; 114; 116; 101; 100]
+  | InvalidCommitSymbol => [73; 110; 118; 97; 108; 105; 100; 67; 111; 109; 109; 105; 116; 83; 121; 109; 98; 111; 108]
+  | AtLeastCommitNotAncestor => [65; 116; 76; 101; 97; 115; 116; 67; 111; 109; 109; 105; 116; 78; 111; 116; 65; 110; 99; 101; 115; 116; 111; 114]
+  end.
+
+Definition is_some' {A} (o : option A) : bool := negb (is_none o).
+
+Lemma validate_args_tie : forall f m,
+  option_map flag_error_name (validate_args f m) =
+  gen_validate_args (f_this_commit f) (is_some' (f_at_least f)) (f_again f) (uses_git m) (is_some' (current_commit m)).
+Proof.
+  intros f m. unfold validate_args, gen_validate_args, is_some'.
+  destruct (f_this_commit f), (f_at_least f), (f_again f), (uses_git m), (current_commit m); reflexivity.
+Qed.
